@@ -722,6 +722,15 @@ def oracle_C07(t):
             if sk in dead_keys and sk not in t.draws(i):
                 out.append(F(i, "a request obtained a session that had been destroyed or invalidated"))
         if fr["ended"] and st["kind"] == "req" and t.plain(i):
+            # the session that ended must be gone from memory and store under
+            # every ID it has (replaced-ID records may linger until their clean-up)
+            post = t.post(i)
+            roots = {lin.find(x) for x in fr["ended"]}
+            for k2 in post.keys():
+                if k2 in fr["find"] and lin.find(k2) in roots:
+                    r2 = post.L(k2)
+                    if r2 is not None and not r2.get("ref"):
+                        out.append(F(i, "the session was ended (Destroy or invalidation) but its record still exists under ID %s" % (k2,)))
             cks = o.get("cookies") or []
             if not any(c["kind"] == "delete" for c in cks):
                 out.append(F(i, "the response that ended a session did not expire the cookie"))
